@@ -247,15 +247,29 @@ isnan = _map(lambda v: False, lambda v: v != v)
 isfinite = _map(lambda v: True, lambda v: real_math.isfinite(v))
 
 
+def _minmax_arr(a, b, f):
+    aa = real_np.ndarray.view(asarray(a), real_np.ndarray) if isinstance(a, real_np.ndarray) else real_np.array(a, dtype=object)
+    bb = real_np.ndarray.view(asarray(b), real_np.ndarray) if isinstance(b, real_np.ndarray) else real_np.array(b, dtype=object)
+    ra, rb = real_np.broadcast_arrays(aa, bb)
+    like = a if isinstance(a, SArr) else b if isinstance(b, SArr) else asarray(a if isinstance(a, real_np.ndarray) else b)
+    o = SArr(ra.shape, like.dtype, fill=None)
+    for idx in real_np.ndindex(*ra.shape):
+        x, y = ra[idx], rb[idx]
+        x = x.item() if isinstance(x, real_np.generic) else x
+        y = y.item() if isinstance(y, real_np.generic) else y
+        real_np.ndarray.__setitem__(o, idx, f(x, y))
+    return o
+
+
 def minimum(a, b):
     if isinstance(a, real_np.ndarray) or isinstance(b, real_np.ndarray):
-        raise ModelGap('array minimum')
+        return _minmax_arr(a, b, core.smin)
     return core.smin(a, b)
 
 
 def maximum(a, b):
     if isinstance(a, real_np.ndarray) or isinstance(b, real_np.ndarray):
-        raise ModelGap('array maximum')
+        return _minmax_arr(a, b, core.smax)
     return core.smax(a, b)
 
 
